@@ -1361,6 +1361,14 @@ class Thunk(Generic[X, R], Pytree):
         return trace(other, self.gen_fn, self.args, self.kwargs)
 
 
+def _bind_kwargs(method, kwargs):
+    """`modular_vmap` maps positional arguments only: keyword arguments are closed
+    over and shared by all lanes (as `Scan` shares them between iterations)."""
+    if not kwargs:
+        return method
+    return lambda *args: method(*args, **kwargs)
+
+
 @Pytree.dataclass
 class Vmap(Generic[X, R], GFI[X, R]):
     """A `Vmap` is a generative function combinator that vectorizes another generative function.
@@ -1406,12 +1414,12 @@ class Vmap(Generic[X, R], GFI[X, R]):
         **kwargs,
     ) -> Trace[X, R]:
         return modular_vmap(
-            self.gen_fn.simulate,
+            _bind_kwargs(self.gen_fn.simulate, kwargs),
             in_axes=self.in_axes.value,
             axis_size=self.axis_size.value,
             axis_name=self.axis_name.value,
             spmd_axis_name=self.spmd_axis_name.value,
-        )(*args, **kwargs)
+        )(*args)
 
     def generate(
         self,
@@ -1424,12 +1432,12 @@ class Vmap(Generic[X, R], GFI[X, R]):
         else:
             in_axes = (0,) + self.in_axes.value
         tr, w = modular_vmap(
-            self.gen_fn.generate,
+            _bind_kwargs(self.gen_fn.generate, kwargs),
             in_axes=in_axes,
             axis_size=self.axis_size.value,
             axis_name=self.axis_name.value,
             spmd_axis_name=self.spmd_axis_name.value,
-        )(x, *args, **kwargs)
+        )(x, *args)
         return tr, jnp.sum(w)
 
     def assess(
@@ -1443,12 +1451,12 @@ class Vmap(Generic[X, R], GFI[X, R]):
         else:
             in_axes = (0,) + self.in_axes.value
         density, retval = modular_vmap(
-            self.gen_fn.assess,
+            _bind_kwargs(self.gen_fn.assess, kwargs),
             in_axes=in_axes,
             axis_size=self.axis_size.value,
             axis_name=self.axis_name.value,
             spmd_axis_name=self.spmd_axis_name.value,
-        )(x, *args, **kwargs)
+        )(x, *args)
         return jnp.sum(density), retval
 
     def update(
@@ -1463,12 +1471,12 @@ class Vmap(Generic[X, R], GFI[X, R]):
         else:
             in_axes = (0, 0) + self.in_axes.value
         new_tr, w, discard = modular_vmap(
-            self.gen_fn.update,
+            _bind_kwargs(self.gen_fn.update, kwargs),
             in_axes=in_axes,
             axis_size=self.axis_size.value,
             axis_name=self.axis_name.value,
             spmd_axis_name=self.spmd_axis_name.value,
-        )(tr, x_, *args, **kwargs)
+        )(tr, x_, *args)
         return new_tr, jnp.sum(w), discard
 
     def regenerate(
@@ -1483,12 +1491,12 @@ class Vmap(Generic[X, R], GFI[X, R]):
         else:
             in_axes = (0, None) + self.in_axes.value
         new_tr, w, discard = modular_vmap(
-            self.gen_fn.regenerate,
+            _bind_kwargs(self.gen_fn.regenerate, kwargs),
             in_axes=in_axes,
             axis_size=self.axis_size.value,
             axis_name=self.axis_name.value,
             spmd_axis_name=self.spmd_axis_name.value,
-        )(tr, s, *args, **kwargs)
+        )(tr, s, *args)
         return new_tr, jnp.sum(w), discard
 
     def merge(
